@@ -59,16 +59,6 @@ impl Layout {
     }
 }
 
-/// byte-wise, loop-free copy of up to 32 bytes (a memcpy into the datagram array would make CBMC
-/// treat the whole array as one symbolic object and lose the pinned type/length words; a loop
-/// would need a larger global unwind bound)
-fn put_bytes(b: &mut [u8], off: usize, src: &[u8]) {
-    let n = src.len();
-    assert!(n <= 32);
-    macro_rules! cp { ($($i:expr),*) => { $( if n > $i { b[off + $i] = src[$i]; } )* } }
-    cp!(0, 1, 2, 3, 4, 5, 6, 7, 8, 9, 10, 11, 12, 13, 14, 15, 16, 17, 18, 19, 20, 21, 22, 23, 24, 25, 26, 27, 28, 29, 30, 31);
-}
-
 fn put16(b: &mut [u8], off: usize, v: usize) {
     b[off] = (v >> 8) as u8;
     b[off + 1] = v as u8;
@@ -300,6 +290,8 @@ fn c07_body(lay: Layout, msg: &mut [u8], split: Split) -> Obs {
         assert!(c1 == c0, "nothing is stored unless a response is processed");
     }
 
+    // the source is not dropped (dropping the 8-slot stash is a loop of 8 = a larger unwind bound)
+    core::mem::forget(src);
     Obs {
         processed,
         got_cookie: processed && c1 > c0,
@@ -387,3 +379,4 @@ c07_plain!(c07_v5_plain, Layout { v5: true, y_len: 0, has_nts: false, inner: 0, 
 c07_nts!(c07_v5_nts, Layout { v5: true, y_len: 20, has_nts: true, inner: 1, x_len: 20 });
 c07_nts!(c07_v5_nts2, Layout { v5: true, y_len: 0, has_nts: true, inner: 2, x_len: 0 });
 c07_kf!(c07_v5_plain_kf_authnak_kiss, Layout { v5: true, y_len: 0, has_nts: false, inner: 0, x_len: 0 });
+
